@@ -308,13 +308,14 @@ func hostilePath(r *rand.Rand) string {
 	}
 }
 
-var hdrExprs = []hdrC{{"X-K", "v"}, {"X-K", "^w$"}, {"User-Agent", "Chrome"}, {"X-Id", "[0-9]+"}, {"Cache-Control", ""}, {"X-K", "^(a|b)$"}}
+var hdrExprs = []hdrC{{"X-K", "v"}, {"X-K", "^w$"}, {"User-Agent", "Chrome"}, {"X-Id", "[0-9]+"}, {"Cache-Control", ""}, {"X-K", "^(a|b)$"},
+	{"X-K", ""}, {"X-Id", "^[0-9]*$"}, {"Cache-Control", "^(no-cache)?$"}}
 var hdrVals = map[string][]string{"X-K": {"", "v", "w", "vw", "a", "xvx"}, "User-Agent": {"", "Chrome/1", "Firefox"}, "X-Id": {"", "12", "ab"}, "Cache-Control": {"", "no-cache"}}
 
 func randReqHdr(r *rand.Rand) map[string]string {
 	h := map[string]string{}
 	for k, vs := range hdrVals {
-		if r.Intn(2) == 0 {
+		if r.Intn(3) > 0 {
 			h[k] = pick(r, vs)
 		}
 	}
@@ -436,6 +437,14 @@ func treeGen(seed int64, n int, args []string, out *json.Encoder) {
 				}
 			}
 			for j, rg := range rgs {
+				// one request spelled exactly like the route text (route syntax characters as literal path text)
+				if rng.Intn(3) == 0 {
+					rq := treeReq{M: c.H[j].M, Raw: encBytes(c.H[j].R.text())}
+					if kind == "hdr" {
+						rq.H = randReqHdr(rng)
+					}
+					c.Reqs = append(c.Reqs, rq)
+				}
 				for k := 0; k < 3; k++ {
 					p := rg.instance(rng)
 					if k > 0 {
